@@ -178,6 +178,7 @@ class TapeHooks:
             del st.tape[:r]
             st.advance(r)
             st.flags["consumed"] = True
+            st.flags.pop("$since", None)
             return
         if fname == "start":
             if v[0] != "ptr" or v[1][0] != "B":
@@ -194,6 +195,7 @@ class TapeHooks:
                 st.w_old_len = (0, True)
                 st.w_first = st.w_recent[0] if st.w_recent else None
             st.flags["w_start"] = v[1]
+            st.flags.pop("$scanned", None)
             if st.mon is not None:
                 st.mon.commit(m, st, keep)
             return
@@ -291,6 +293,43 @@ class TapeHooks:
 
     def on_static_store(self, m, st, path, v):
         pass
+
+    def on_region_scan(self, m, st, s, what):
+        """A linear pass over a slice of the input (trim scan, UTF-8 validation, iteration).
+        The uncommitted window may be scanned once between two commits; committed regions are
+        disjoint, so a bounded number of passes over each keeps the total work linear."""
+        if s[0] != "fat" or s[1][0] != "B":
+            return
+        pb = m.p.ptr_bytes * 8
+        from .absm import sym_add as _sa
+        end = _sa(m.addr_of(s[1], pb), s[2])
+        if end[0] != "sym":
+            return
+        re_ = st.rel_pos(end[1], end[2])
+        if re_ is None or re_[2] != 1 or re_[1] is None or re_[1] > 0:
+            return  # not (known to be) behind the cursor: look-ahead over remaining input
+        if s[2][0] == "int" and s[2][1] <= 1:
+            return
+        ws = st.flags.get("w_start")
+        uncommitted = True
+        if ws is not None and end[0] == "sym":
+            d = sym_norm(list(end[1]) + [(x, -c) for x, c in ws[1]], end[2] - ws[2], 0, True)
+            if d[0] == "int":
+                uncommitted = d[1] > 0
+            else:
+                r = st.rel_pos(d[1], d[2])
+                uncommitted = not (r is not None and r[1] is not None and r[1] <= 0)
+        if uncommitted:
+            n = st.flags.get("$scanned", 0)
+            if n >= 1:
+                m.violate(st, "window-rescanned", "%s passes over input that is not yet committed and was already scanned since the last commit (work grows with the square of the pending length)" % what)
+            st.flags["$scanned"] = n + 1
+        else:
+            key = "$scan:%s" % (s[1],)
+            n = st.flags.get(key, 0)
+            if n >= 3:
+                m.violate(st, "region-rescanned", "%s is the %dth linear pass over the same region" % (what, n + 1))
+            st.flags[key] = n + 1
 
     def on_enter(self, m, st, inst):
         if st.mon is not None:
@@ -977,6 +1016,19 @@ class Explorer:
             st.mon.at_loop_head(self.m, st)
         k = state_key(st)
         w = window_summary(st)
+        # C20/C01 termination: returning to an identical abstract state without having consumed a
+        # byte or advanced a finite iterator in between is a cycle that makes no progress
+        hk = hash((k, w))
+        since = st.flags.get("$since")
+        if since is None:
+            since = st.flags["$since"] = set()
+        if hk in since:
+            try:
+                self.m.violate(st, "no-progress-cycle", "a loop iteration returns to the same state without consuming input or advancing an iterator")
+            except Violation:
+                pass
+            return True
+        since.add(hk)
         seen = self.visited.get(k)
         if seen is None:
             self.visited[k] = [[dict(st.facts), w]]
